@@ -8,7 +8,7 @@ from .ty import INT, BOOL, CHAR, NONE, SLICE, TStr, TList, TTuple, TOpt, TRec, T
 from .engine import SDict, V, K, PyObj, STuple, Unsupported, none_v, mk_int, mk_bool, fresh, seq_arr, seq_len, mk_seq, str_const, is_str
 
 # refutation mode: expand quantifiers over 0..BOUND and bound every fresh sequence length
-MODE = {"bounded": None, "side": []}
+MODE = {"bounded": None, "side": [], "pure": False}   # pure: inside a recursive definition (no fresh constants / assumptions)
 
 
 def coerce(v, ty: Ty, st=None):
@@ -487,8 +487,16 @@ def seq_concat(a: V, b: V, st) -> V:
         st.assume(z3.Implies(b.z == T.text_empty(), r.z == a.z))
         st.assume(z3.Implies(a.z == T.text_empty(), r.z == b.z))
         return r
-    r = fresh(t, "cat")
     la, lb = seq_len(a), seq_len(b)
+    if MODE.get("pure"):
+        # a definition body must be a closed term of its formals: build the concatenation as a term
+        if z3.is_int_value(z3.simplify(lb)) and z3.simplify(lb).as_long() == 1:
+            return mk_seq(t, z3.Store(seq_arr(a), la, z3.Select(seq_arr(b), 0)), la + 1)
+        if z3.is_int_value(z3.simplify(lb)) and z3.simplify(lb).as_long() == 0:
+            return a
+        i = z3.Int(T.fresh_name("lam"))
+        return mk_seq(t, z3.Lambda([i], z3.If(i < la, z3.Select(seq_arr(a), i), z3.Select(seq_arr(b), i - la))), la + lb)
+    r = fresh(t, "cat")
     st.assume(seq_len(r) == la + lb)
     i = z3.Int(T.fresh_name("qc"))
     st.assume(forall([i], z3.Implies(z3.And(0 <= i, i < la), z3.Select(seq_arr(r), i) == z3.Select(seq_arr(a), i))))
